@@ -1,28 +1,26 @@
-SPECIFICATION SubMCSpec
+SPECIFICATION FloodSpec
 CONSTANTS
-  Caps = {1, 2, 4}
-  Classes = {"intact", "flip_body", "garbage", "foreign_intact"}
-  MaxSend = 5
+  Caps = {1}
+  Classes = {}
+  MaxSend = 1000
   Wall = {}
   MaxPublish = 0
   Handles = {}
   GCaps = {1}
   SplitCommit = FALSE
   PendingWithoutWake = FALSE
-  SkipBudget = 0
+  SkipBudget = 32
   BudgetSelfWake = FALSE
   ClockAsCoded = FALSE
-  FloodLens = {}
-  FloodCap = 1
+  FloodLens = {1, 31, 32, 33, 100, 127}
+  FloodCap = 128
   KeepHist = FALSE
   AtomicPolls = FALSE
 INVARIANTS
   C17_NoLostWakeup
   C17_ParkedOnlyWhenDrained
   C16_YieldedAreAuthentic
-  C16_TamperedNeverYielded
-  C16_YieldedInOrder
   Conserved
 PROPERTIES
-  C17_EventuallyYielded
-CHECK_DEADLOCK TRUE
+  C17_FloodEventuallyYielded
+CHECK_DEADLOCK FALSE
